@@ -5,12 +5,13 @@ import Tickit.Proof.LifeCopy
 -/
 namespace Tickit.Life
 open WinTree (Id Win Req Change Tree)
+variable {gh : Ghost}
 
 /-! ## changes of a window's record that keep its pen -/
 
-theorem SInv.setX_same {st : St} (inv : SInv st) (i : Nat) (x : WinX) (hp : x.pen = (getX st i).pen)
-    (ha : x.appRefs = (getX st i).appRefs) : SInv (setX st i x) := by
-  refine ⟨inv.toSInvB.of_wx rfl rfl rfl rfl rfl (setX_map_pen x hp), ?_⟩
+theorem SInv.setX_same {st : St} (inv : SInv gh st) (i : Nat) (x : WinX) (hp : x.pen = (getX st i).pen)
+    (ha : x.appRefs = (getX st i).appRefs) : SInv gh (setX st i x) := by
+  refine ⟨inv.toSInvB.of_wx rfl rfl rfl rfl rfl (setX_map_pen x hp), ?_, inv.glive⟩
   intro j w hl
   rw [getX_setX]
   split
@@ -26,14 +27,14 @@ theorem pens_size_lt {st : St} {k : Nat} {p : Obj} (h : st.pens[k]? = some p) : 
     rw [h] at this; cases this
 
 /-- A change of one pen object that keeps `refcount - appRefs` and liveness consistent. -/
-theorem SInv.set_pen {st : St} (inv : SInv st) {k : Nat} {p p' : Obj} (hk : st.pens[k]? = some p)
+theorem SInv.set_pen {st : St} (inv : SInv gh st) {k : Nat} {p p' : Obj} (hk : st.pens[k]? = some p)
     (h1 : p'.freed = false → p.freed = false ∧ p'.refcount - (p'.appRefs : Int) = p.refcount - (p.appRefs : Int))
     (h2 : p'.freed = true → holders st k = 0) (h3 : p'.freed = false → 1 ≤ p'.refcount) :
-    SInv { st with pens := st.pens.setIfInBounds k p' } := by
+    SInv gh { st with pens := st.pens.setIfInBounds k p' } := by
   have hlt := pens_size_lt hk
   have hh : ∀ (j : Nat), holders { st with pens := st.pens.setIfInBounds k p' } j = holders st j := fun j => holders_congr rfl j
   refine ⟨⟨inv.tinv, inv.wx_size, inv.rc, List.nodup_nil, by intro i hi; simp at hi, inv.dead_pen, ⟨?_, ?_, ?_⟩,
-    inv.term_held, inv.term_free, inv.term_dead, inv.simple⟩, inv.wref⟩
+    inv.term_held, inv.term_free, inv.term_dead, inv.simple⟩, inv.wref, inv.glive⟩
   rotate_left 2
   · intro j q hq hfq
     simp only [Array.getElem?_setIfInBounds] at hq
@@ -74,9 +75,9 @@ theorem heldP_spec {st : St} {k : Nat} (h : heldP st k = true) : ∃ p, st.pens[
     exact ⟨p, rfl, h.1, h.2⟩
 
 /-- `tickit_pen_ref` by the application. -/
-theorem pref_ok {st : St} (inv : SInv st) {k : Nat} (h : heldP st k = true) :
+theorem pref_ok {st : St} (inv : SInv gh st) {k : Nat} (h : heldP st k = true) :
     ∃ st', penRef { st with pens := st.pens.setIfInBounds k { (st.pens[k]?.getD {}) with appRefs := (st.pens[k]?.getD {}).appRefs + 1 } } k = .ok st' ∧
-      SInv st' := by
+      SInv gh st' := by
   obtain ⟨p, hp, hf, _⟩ := heldP_spec h
   have hlt := pens_size_lt hp
   unfold penRef
@@ -88,9 +89,9 @@ theorem pref_ok {st : St} (inv : SInv st) {k : Nat} (h : heldP st k = true) :
     (fun _ => by have := inv.pens.pos k p hp hf; show 1 ≤ p.refcount + 1; omega)
 
 /-- `tickit_pen_unref` by the application. -/
-theorem punref_ok {st : St} (inv : SInv st) {k : Nat} (h : heldP st k = true) :
+theorem punref_ok {st : St} (inv : SInv gh st) {k : Nat} (h : heldP st k = true) :
     ∃ st' p p', penUnref { st with pens := st.pens.setIfInBounds k { (st.pens[k]?.getD {}) with appRefs := (st.pens[k]?.getD {}).appRefs - 1 } } k = .ok st' ∧
-      SInv st' ∧ st.pens[k]? = some p ∧ st' = { st with pens := st.pens.setIfInBounds k p' } ∧ p'.appRefs + 1 = p.appRefs := by
+      SInv gh st' ∧ st.pens[k]? = some p ∧ st' = { st with pens := st.pens.setIfInBounds k p' } ∧ p'.appRefs + 1 = p.appRefs := by
   obtain ⟨p, hp, hf, hpos⟩ := heldP_spec h
   have hlt := pens_size_lt hp
   have hrc := (inv.pens.rc k p hp).1 hf
@@ -113,10 +114,10 @@ theorem punref_ok {st : St} (inv : SInv st) {k : Nat} (h : heldP st k = true) :
       omega)
 
 /-- `tickit_pen_new`. -/
-theorem pen_new_ok {st : St} (inv : SInv st) : SInv { st with pens := st.pens.push {} } := by
+theorem pen_new_ok {st : St} (inv : SInv gh st) : SInv gh { st with pens := st.pens.push {} } := by
   have hh : ∀ (j : Nat), holders { st with pens := st.pens.push {} } j = holders st j := fun j => holders_congr rfl j
   refine ⟨⟨inv.tinv, inv.wx_size, inv.rc, List.nodup_nil, by intro i hi; simp at hi, inv.dead_pen, ⟨?_, ?_, ?_⟩,
-    inv.term_held, inv.term_free, inv.term_dead, inv.simple⟩, inv.wref⟩
+    inv.term_held, inv.term_free, inv.term_dead, inv.simple⟩, inv.wref, inv.glive⟩
   rotate_left 2
   · intro j q hq hfq
     simp only [Array.getElem?_push] at hq
@@ -153,6 +154,7 @@ end Tickit.Life
 
 namespace Tickit.Life
 open WinTree (Id Win Req Change Tree)
+variable {gh : Ghost}
 
 /-- `tickit_pen_unref` on a live pen with a positive count: what changes. -/
 theorem penUnref_spec {st : St} {k : Nat} {p : Obj} (hp : st.pens[k]? = some p) (hf : p.freed = false) (hr : 1 ≤ p.refcount) :
@@ -217,9 +219,9 @@ theorem dropWinPen_keeps_held {st : St} (P : PensOk st) {i : Nat} (hi : i < st.w
       · exact ⟨p, by rw [hother k hkk]; exact hp, hf⟩
 
 /-- `win->pen = tickit_pen_ref(pen)` for a window that holds no pen. -/
-theorem assignPen_ok {st : St} (inv : SInv st) {win : Nat} {ww : Win} (hw : LiveW st.tree win ww)
+theorem assignPen_ok {st : St} (inv : SInv gh st) {win : Nat} {ww : Win} (hw : LiveW st.tree win ww)
     (hnull : (getX st win).pen = .null) {k : Nat} {p : Obj} (hp : st.pens[k]? = some p) (hf : p.freed = false) :
-    ∃ st', assignPen st win k = .ok st' ∧ SInv st' := by
+    ∃ st', assignPen st win k = .ok st' ∧ SInv gh st' := by
   have hwin : win < st.wx.size := by rw [inv.wx_size]; exact hw.lt
   obtain ⟨st1, p1, href, ht1, hwx1, htm1, hrb1, hstr1, hk1, hf1, ha1, hr1, hother⟩ := penRef_spec hp hf
   unfold assignPen
@@ -250,7 +252,8 @@ theorem assignPen_ok {st : St} (inv : SInv st) {win : Nat} {ww : Win} (hw : Live
     by simp only [setX_term, setX_tree, htm1, ht1]; exact inv.term_held,
     by simp only [setX_term, setX_tree, htm1, ht1]; exact inv.term_free,
     by simp only [setX_term, setX_tree, htm1, ht1]; exact inv.term_dead,
-    ⟨by simp only [setX, hrb1]; exact inv.simple.1, by simp only [setX, hstr1]; exact inv.simple.2⟩⟩, ?_⟩
+    ⟨by simp only [setX, hrb1]; exact inv.simple.1, by simp only [setX, hstr1]; exact inv.simple.2⟩⟩, ?_,
+    by simp only [setX_tree, ht1]; exact inv.glive⟩
   rotate_right
   · intro i w hl
     rw [happ i]
@@ -296,9 +299,9 @@ theorem assignPen_ok {st : St} (inv : SInv st) {win : Nat} {ww : Win} (hw : Live
       exact inv.pens.pos j q hq hfq
 
 /-- `tickit_window_set_pen`. -/
-theorem setPen_ok {st : St} (inv : SInv st) {win : Nat} {ww : Win} (hw : LiveW st.tree win ww) (pen : Option Nat)
+theorem setPen_ok {st : St} (inv : SInv gh st) {win : Nat} {ww : Win} (hw : LiveW st.tree win ww) (pen : Option Nat)
     (hpen : ∀ (k : Nat), pen = some k → heldP st k = true) :
-    ∃ st', setPen st win pen = .ok st' ∧ SInv st' := by
+    ∃ st', setPen st win pen = .ok st' ∧ SInv gh st' := by
   have hwin : win < st.wx.size := by rw [inv.wx_size]; exact hw.lt
   unfold setPen
   simp only [getW, get_live hw, bind_ok]
@@ -309,7 +312,7 @@ theorem setPen_ok {st : St} (inv : SInv st) {win : Nat} {ww : Win} (hw : LiveW s
     intro j hj
     rw [getX_setX_ne _ (Ne.symm hj)]
     unfold getX; rw [hwx1]
-  have inv2 : SInv (setX st1 win { getX st1 win with pen := .null }) := by
+  have inv2 : SInv gh (setX st1 win { getX st1 win with pen := .null }) := by
     have happ : ∀ (j : Nat), (getX (setX st1 win { getX st1 win with pen := .null }) j).appRefs = (getX st j).appRefs := by
       intro j
       by_cases hj : j = win
@@ -324,7 +327,8 @@ theorem setPen_ok {st : St} (inv : SInv st) {win : Nat} {ww : Win} (hw : LiveW s
       by simp only [setX_term, setX_tree, htm1, ht1]; exact inv.term_held,
       by simp only [setX_term, setX_tree, htm1, ht1]; exact inv.term_free,
       by simp only [setX_term, setX_tree, htm1, ht1]; exact inv.term_dead,
-      ⟨by simp only [setX, hrb1]; exact inv.simple.1, by simp only [setX, hstr1]; exact inv.simple.2⟩⟩, ?_⟩
+      ⟨by simp only [setX, hrb1]; exact inv.simple.1, by simp only [setX, hstr1]; exact inv.simple.2⟩⟩, ?_,
+      by simp only [setX_tree, ht1]; exact inv.glive⟩
     rotate_right
     · intro i w hl
       rw [happ i]
@@ -350,6 +354,7 @@ end Tickit.Life
 
 namespace Tickit.Life
 open WinTree (Id Win Req Change Tree)
+variable {gh : Ghost}
 
 /-! ## the terminal -/
 
@@ -359,34 +364,34 @@ theorem heldT_spec {st : St} (h : heldT st = true) : st.term.freed = false ∧ 0
   exact h
 
 /-- A change of the terminal object. -/
-theorem SInv.set_term {st : St} (inv : SInv st) (tm : Obj)
-    (h1 : tm.freed = false → (∃ r, LiveW st.tree 0 r) → tm.refcount = (tm.appRefs : Int) + 1)
-    (h2 : tm.freed = false → (¬ ∃ r, LiveW st.tree 0 r) → tm.refcount = (tm.appRefs : Int) ∧ 1 ≤ tm.refcount)
-    (h3 : tm.freed = true → ¬ ∃ r, LiveW st.tree 0 r) : SInv { st with term := tm } := by
+theorem SInv.set_term {st : St} (inv : SInv gh st) (tm : Obj)
+    (h1 : tm.freed = false → (∃ r, LiveW st.tree 0 r) → tm.refcount = (tm.appRefs : Int) + (gh.term : Int) + 1)
+    (h2 : tm.freed = false → (¬ ∃ r, LiveW st.tree 0 r) → tm.refcount = (tm.appRefs : Int) + (gh.term : Int) ∧ 1 ≤ tm.refcount)
+    (h3 : tm.freed = true → (¬ ∃ r, LiveW st.tree 0 r) ∧ tm.appRefs = 0 ∧ gh.term = 0) : SInv gh { st with term := tm } := by
   refine ⟨⟨inv.tinv, inv.wx_size, inv.rc, List.nodup_nil, by intro i hi; simp at hi, inv.dead_pen,
-    ⟨inv.pens.rc, inv.pens.ex, inv.pens.pos⟩, ?_, ?_, ?_, inv.simple⟩, inv.wref⟩
+    ⟨inv.pens.rc, inv.pens.ex, inv.pens.pos⟩, ?_, ?_, ?_, inv.simple⟩, inv.wref, inv.glive⟩
   · intro hf h; exact h1 hf (by rcases h with h | h; exact h; simp at h)
   · intro hf h; exact h2 hf (fun h' => h (.inl h'))
-  · intro hf h; exact h3 hf (by rcases h with h | h; exact h; simp at h)
+  · intro hf; exact ⟨fun h => (h3 hf).1 (by rcases h with h | h; exact h; simp at h), (h3 hf).2⟩
 
 /-- `tickit_term_ref` by the application. -/
-theorem tref_ok {st : St} (inv : SInv st) (h : heldT st = true) :
-    SInv { st with term := { st.term with appRefs := st.term.appRefs + 1, refcount := st.term.refcount + 1 } } := by
+theorem tref_ok {st : St} (inv : SInv gh st) (h : heldT st = true) :
+    SInv gh { st with term := { st.term with appRefs := st.term.appRefs + 1, refcount := st.term.refcount + 1 } } := by
   obtain ⟨hf, _⟩ := heldT_spec h
   refine inv.set_term _ ?_ ?_ ?_
   · intro _ hr
     have := inv.term_held hf (.inl hr)
-    show st.term.refcount + 1 = ((st.term.appRefs + 1 : Nat) : Int) + 1
+    show st.term.refcount + 1 = ((st.term.appRefs + 1 : Nat) : Int) + (gh.term : Int) + 1
     omega
   · intro _ hr
     have := inv.term_free hf (by rintro (h' | h'); exact hr h'; simp at h')
-    show st.term.refcount + 1 = ((st.term.appRefs + 1 : Nat) : Int) ∧ 1 ≤ st.term.refcount + 1
+    show st.term.refcount + 1 = ((st.term.appRefs + 1 : Nat) : Int) + (gh.term : Int) ∧ 1 ≤ st.term.refcount + 1
     omega
   · intro h'; rw [show ({ st.term with appRefs := st.term.appRefs + 1, refcount := st.term.refcount + 1 } : Obj).freed = st.term.freed from rfl, hf] at h'; cases h'
 
 /-- `tickit_term_unref` by the application. -/
-theorem tunref_ok {st : St} (inv : SInv st) (h : heldT st = true) :
-    ∃ st' tm, termUnref { st with term := { st.term with appRefs := st.term.appRefs - 1 } } = .ok st' ∧ SInv st' ∧
+theorem tunref_ok {st : St} (inv : SInv gh st) (h : heldT st = true) :
+    ∃ st' tm, termUnref { st with term := { st.term with appRefs := st.term.appRefs - 1 } } = .ok st' ∧ SInv gh st' ∧
       st' = { st with term := tm } ∧ tm.appRefs + 1 = st.term.appRefs := by
   obtain ⟨hf, hpos⟩ := heldT_spec h
   have hr1 : 1 ≤ st.term.refcount := by
@@ -402,16 +407,26 @@ theorem tunref_ok {st : St} (inv : SInv st) (h : heldT st = true) :
   · intro _ hr
     have := inv.term_held hf (.inl hr)
     simp only [dropped_refcount, dropped_appRefs]
+    show st.term.refcount - 1 = ((st.term.appRefs - 1 : Nat) : Int) + (gh.term : Int) + 1
     omega
   · intro hf' hr
     have := inv.term_free hf (by rintro (h' | h'); exact hr h'; simp at h')
     simp only [dropped_freed, decide_eq_false_iff_not] at hf'
     simp only [dropped_refcount, dropped_appRefs]
+    show st.term.refcount - 1 = ((st.term.appRefs - 1 : Nat) : Int) + (gh.term : Int) ∧ 1 ≤ st.term.refcount - 1
+    have hf'' : ¬ st.term.refcount - 1 = 0 := hf'
     omega
-  · intro hf' hr
-    have := inv.term_held hf (.inl hr)
+  · intro hf'
     simp only [dropped_freed, decide_eq_true_eq] at hf'
-    omega
+    have hf'' : st.term.refcount - 1 = 0 := hf'
+    refine ⟨fun hr => ?_, ?_⟩
+    · have := inv.term_held hf (.inl hr)
+      omega
+    · simp only [dropped_appRefs]
+      show st.term.appRefs - 1 = 0 ∧ gh.term = 0
+      by_cases hr : ∃ r, LiveW st.tree 0 r
+      · have := inv.term_held hf (.inl hr); omega
+      · have := inv.term_free hf (by rintro (h' | h'); exact hr h'; simp at h'); omega
 
 /-! ## render buffers and strings -/
 
@@ -428,15 +443,15 @@ theorem heldB_pos {st : St} {k : Nat} {b : RBObj} (h : heldB st k = true) (hb : 
   simp only [hb, Bool.and_eq_true, Bool.not_eq_true', decide_eq_true_eq] at h
   exact h.2
 
-theorem SInv.set_simple {st : St} (inv : SInv st) (r : Array RBObj) (s : Array StrObj)
-    (h : SimpleOk { st with rbs := r, strs := s }) : SInv { st with rbs := r, strs := s } :=
+theorem SInv.set_simple {st : St} (inv : SInv gh st) (r : Array RBObj) (s : Array StrObj)
+    (h : SimpleOk { st with rbs := r, strs := s }) : SInv gh { st with rbs := r, strs := s } :=
   ⟨⟨inv.tinv, inv.wx_size, inv.rc, List.nodup_nil, by intro i hi; simp at hi, inv.dead_pen,
-    ⟨inv.pens.rc, inv.pens.ex, inv.pens.pos⟩, inv.term_held, inv.term_free, inv.term_dead, h⟩, inv.wref⟩
+    ⟨inv.pens.rc, inv.pens.ex, inv.pens.pos⟩, inv.term_held, inv.term_free, inv.term_dead, h⟩, inv.wref, inv.glive⟩
 
 /-- A change of one buffer object. -/
-theorem SInv.set_rb {st : St} (inv : SInv st) (k : Nat) (b' : RBObj)
+theorem SInv.set_rb {st : St} (inv : SInv gh st) (k : Nat) (b' : RBObj)
     (h : b'.freed = false → 1 ≤ b'.refcount ∧ b'.refcount = (b'.appRefs : Int)) :
-    SInv { st with rbs := st.rbs.setIfInBounds k b' } := by
+    SInv gh { st with rbs := st.rbs.setIfInBounds k b' } := by
   refine inv.set_simple _ st.strs ⟨?_, inv.simple.2⟩
   intro j b hb hf
   simp only [Array.getElem?_setIfInBounds] at hb
@@ -450,9 +465,9 @@ theorem SInv.set_rb {st : St} (inv : SInv st) (k : Nat) (b' : RBObj)
     exact inv.simple.1 j b hb hf
 
 /-- A change of one string object. -/
-theorem SInv.set_str {st : St} (inv : SInv st) (k : Nat) (s' : StrObj)
+theorem SInv.set_str {st : St} (inv : SInv gh st) (k : Nat) (s' : StrObj)
     (h : s'.freed = false → 1 ≤ s'.refcount ∧ s'.refcount = (s'.appRefs : Int)) :
-    SInv { st with strs := st.strs.setIfInBounds k s' } := by
+    SInv gh { st with strs := st.strs.setIfInBounds k s' } := by
   refine inv.set_simple st.rbs _ ⟨inv.simple.1, ?_⟩
   intro j b hb hf
   simp only [Array.getElem?_setIfInBounds] at hb
@@ -465,9 +480,9 @@ theorem SInv.set_str {st : St} (inv : SInv st) (k : Nat) (s' : StrObj)
   · simp only [hkj, if_false] at hb
     exact inv.simple.2 j b hb hf
 
-theorem SInv.set_penx {st : St} (inv : SInv st) (x : Array PenX) : SInv { st with penx := x } :=
+theorem SInv.set_penx {st : St} (inv : SInv gh st) (x : Array PenX) : SInv gh { st with penx := x } :=
   ⟨⟨inv.tinv, inv.wx_size, inv.rc, List.nodup_nil, by intro i hi; simp at hi, inv.dead_pen,
-    ⟨inv.pens.rc, inv.pens.ex, inv.pens.pos⟩, inv.term_held, inv.term_free, inv.term_dead, inv.simple⟩, inv.wref⟩
+    ⟨inv.pens.rc, inv.pens.ex, inv.pens.pos⟩, inv.term_held, inv.term_free, inv.term_dead, inv.simple⟩, inv.wref, inv.glive⟩
 
 theorem heldS_spec {st : St} {k : Nat} (h : heldS st k = true) :
     ∃ s, st.strs[k]? = some s ∧ s.freed = false ∧ 0 < s.appRefs ∧ k < st.strs.size := by
@@ -482,9 +497,9 @@ theorem heldS_spec {st : St} {k : Nat} (h : heldS st k = true) :
     · have := Array.getElem?_eq_none (xs := st.strs) (Nat.le_of_not_lt hlt)
       rw [hs] at this; cases this
 
-theorem rbUpd_ok {st : St} (inv : SInv st) (k : Nat) (f : RBObj → Out RBObj)
+theorem rbUpd_ok {st : St} (inv : SInv gh st) (k : Nat) (f : RBObj → Out RBObj)
     (hf : ∀ b, ∃ b', f b = .ok b' ∧ b'.freed = b.freed ∧ b'.refcount = b.refcount ∧ b'.appRefs = b.appRefs) :
-    ∃ st' r, rbUpd st k f = .ok (st', r) ∧ SInv st' := by
+    ∃ st' r, rbUpd st k f = .ok (st', r) ∧ SInv gh st' := by
   unfold rbUpd
   by_cases hh : heldB st k = true
   · obtain ⟨b, hb, hfb⟩ := heldB_spec hh
@@ -525,12 +540,12 @@ end Tickit.Life
 
 namespace Tickit.Life
 open WinTree (Id Win Req Change Tree)
+variable {gh : Ghost}
 
 /-! ## one step -/
 
-theorem SInv.init (lines cols : Int) :
-    SInv { tree := { wins := #[({ rect := ⟨0, 0, lines, cols⟩, isRoot := true } : Win)], root := {} }, wx := #[{}],
-           term := { refcount := 2 } } := by
+theorem SInv.init (lines cols : Int) (hgt : gh.term = 0) (hgw : gh.win 0 = 0) :
+    SInv gh ({ tree := { wins := #[({ rect := ⟨0, 0, lines, cols⟩, isRoot := true } : Win)], root := {} }, wx := #[{}], term := { refcount := 2 } } : St) := by
   have hget : ∀ (i : Nat) (w : Win), (#[({ rect := ⟨0, 0, lines, cols⟩, isRoot := true } : Win)])[i]? = some w →
       i = 0 ∧ w = { rect := ⟨0, 0, lines, cols⟩, isRoot := true } := by
     intro i w h
@@ -551,15 +566,18 @@ theorem SInv.init (lines cols : Int) :
     · intro s hs; cases hs
   have hroot : ∃ r, LiveW ({ wins := #[({ rect := ⟨0, 0, lines, cols⟩, isRoot := true } : Win)], root := {} } : Tree) 0 r :=
     ⟨{ rect := ⟨0, 0, lines, cols⟩, isRoot := true }, by simp, rfl⟩
-  refine ⟨⟨tinv, rfl, ?_, List.nodup_nil, by intro i hi; simp at hi, ?_, ⟨?_, ?_, ?_⟩, ?_, ?_, ?_, ?_⟩, ?_⟩
+  refine ⟨⟨tinv, rfl, ?_, List.nodup_nil, by intro i hi; simp at hi, ?_, ⟨?_, ?_, ?_⟩, ?_, ?_, ?_, ?_⟩, ?_, fun _ => hroot⟩
   rotate_right
-  · intro i w hl; obtain ⟨rfl, rfl⟩ := hlive i w hl; show (1 : Int) ≤ ((1 : Nat) : Int); omega
+  · intro i w hl; obtain ⟨rfl, rfl⟩ := hlive i w hl
+    refine ⟨?_, fun _ => ?_⟩
+    · show (1 : Int) ≤ ((1 : Nat) : Int) + (gh.win 0 : Int); omega
+    · show ((1 : Nat) : Int) + (gh.win 0 : Int) ≤ 1; rw [hgw]; decide
   · intro i w hl; obtain ⟨_, rfl⟩ := hlive i w hl; show (1 : Int) ≤ 1; omega
   · intro i w h hf _; obtain ⟨_, rfl⟩ := hget i w h; cases hf
   · intro k p hk; simp at hk
   · intro k _; simp [holders]
   · intro k p hk; simp at hk
-  · intro _ _; rfl
+  · intro _ _; show (2 : Int) = ((1 : Nat) : Int) + (gh.term : Int) + 1; rw [hgt]; rfl
   · intro _ h; exact absurd (.inl hroot) h
   · intro h; cases h
   · exact ⟨by intro k b hb; simp at hb, by intro k b hb; simp at hb⟩
@@ -568,10 +586,11 @@ theorem liftT_ok {st : St} {r : Out Tree} {t' : Tree} (h : r = .ok t') : liftT s
   unfold liftT; rw [h]; rfl
 
 /-- Every operation that runs no handler keeps the invariant and never fails. -/
-theorem step_plain_ok {cfg : Cfg} (R : Repaired cfg) {st : St} (inv : SInv st) (op : Op) (hp : op.plain = true) :
-    ∃ st' r, step cfg st op = .ok (st', r) ∧ SInv st' := by
+theorem step_plain_ok {cfg : Cfg} (R : Repaired cfg) {st : St} (inv : SInv gh st) (op : Op) (hp : op.plain = true)
+    (hnew : ∀ l c m, op = .newTerm l c m → gh.term = 0 ∧ gh.win 0 = 0) :
+    ∃ st' r, step cfg st op = .ok (st', r) ∧ SInv gh st' := by
   cases op <;> simp only [Op.plain, Bool.false_eq_true] at hp <;> unfold step
-  case newTerm lines cols mock => exact ⟨_, _, rfl, SInv.init lines cols⟩
+  case newTerm lines cols mock => exact ⟨_, _, rfl, SInv.init lines cols (hnew _ _ _ rfl).1 (hnew _ _ _ rfl).2⟩
   case win p r f =>
     by_cases hu : usableW st p = true
     · obtain ⟨⟨pw, hpl⟩, _⟩ := usableW_spec inv.tinv hu
@@ -882,6 +901,7 @@ end Tickit.Life
 
 namespace Tickit.Life
 open WinTree (Id Win Req Change Tree)
+variable {gh : Ghost}
 
 /-! ## dropping everything (`end`) -/
 
@@ -907,22 +927,24 @@ structure WLater (st st' : St) : Prop where
   size : st'.tree.wins.size = st.tree.wins.size
   freed : ∀ (i : Nat) (w : Win), st.tree.wins[i]? = some w → w.freed = true →
     ∃ w', st'.tree.wins[i]? = some w' ∧ w'.freed = true
+  /-- the application takes no reference -/
+  apps : ∀ (i : Nat), (getX st' i).appRefs ≤ (getX st i).appRefs
 
-theorem WLater.refl (st : St) : WLater st st := ⟨rfl, fun _ w h hf => ⟨w, h, hf⟩⟩
+theorem WLater.refl (st : St) : WLater st st := ⟨rfl, fun _ w h hf => ⟨w, h, hf⟩, fun _ => Nat.le_refl _⟩
 
 theorem WLater.trans {a b c : St} (h1 : WLater a b) (h2 : WLater b c) : WLater a c :=
   ⟨h2.size.trans h1.size, fun i w hw hf => by
     obtain ⟨w', hw', hf'⟩ := h1.freed i w hw hf
-    exact h2.freed i w' hw' hf'⟩
+    exact h2.freed i w' hw' hf', fun i => Nat.le_trans (h2.apps i) (h1.apps i)⟩
 
-/-- A window the application no longer holds is gone (or out of range), and stays so. -/
-theorem not_heldW_later {st st' : St} (inv : SInv st) (L : WLater st st') {b : Nat} (h : heldW st b = false) :
+/-- A window the application no longer holds stays so. -/
+theorem not_heldW_later {st st' : St} (L : WLater st st') {b : Nat} (h : heldW st b = false) :
     heldW st' b = false := by
   cases hb' : heldW st' b with
   | false => rfl
   | true =>
     exfalso
-    obtain ⟨w', hl', _⟩ := heldW_spec hb'
+    obtain ⟨w', hl', hpos'⟩ := heldW_spec hb'
     have hlt : b < st.tree.wins.size := by have := hl'.lt; rw [L.size] at this; exact this
     cases hw : st.tree.wins[b]? with
     | none =>
@@ -937,27 +959,25 @@ theorem not_heldW_later {st st' : St} (inv : SInv st) (L : WLater st st') {b : N
       | false =>
         unfold heldW at h
         simp only [hw, hf, Bool.not_false, Bool.true_and, decide_eq_false_iff_not, Nat.not_lt, Nat.le_zero_eq] at h
-        have h1 := inv.wref b w ⟨hw, hf⟩
-        have h2 := inv.rc b w ⟨hw, hf⟩
-        rw [h] at h1
+        have := L.apps b
         omega
 
-theorem dropW_ok {cfg : Cfg} (R : Repaired cfg) (i : Nat) : ∀ (n : Nat) (st : St), SInv st → (getX st i).appRefs < n →
-    ∃ st', dropAll.dropW cfg n st i = .ok st' ∧ SInv st' ∧ WLater st st' ∧ heldW st' i = false
+theorem dropW_ok {cfg : Cfg} (R : Repaired cfg) (i : Nat) : ∀ (n : Nat) (st : St), SInv gh st → (getX st i).appRefs < n →
+    ∃ st', dropAll.dropW cfg n st i = .ok st' ∧ SInv gh st' ∧ WLater st st' ∧ heldW st' i = false
   | 0, _, _, h => absurd h (Nat.not_lt_zero _)
   | n + 1, st, inv, h => by
     unfold dropAll.dropW
     by_cases hh : heldW st i = true
     · simp only [hh, if_true]
-      obtain ⟨st1, hu, inv1, hsz, hfr, hle⟩ := unrefW_ok R inv hh
+      obtain ⟨st1, hu, inv1, hsz, hfr, hle, hmono, _⟩ := unrefW_ok R inv hh
       simp only [hu, bind_ok]
       obtain ⟨st2, h2, inv2, L2, hd⟩ := dropW_ok R i n st1 inv1 (by omega)
-      exact ⟨st2, h2, inv2, WLater.trans ⟨hsz, hfr⟩ L2, hd⟩
+      exact ⟨st2, h2, inv2, WLater.trans ⟨hsz, hfr, hmono⟩ L2, hd⟩
     · simp only [hh, Bool.false_eq_true, if_false, pure_ok]
       exact ⟨st, rfl, inv, WLater.refl st, by simpa using hh⟩
 
-theorem dropP_ok (k : Nat) : ∀ (n : Nat) (st : St), SInv st → (st.pens[k]?.getD {}).appRefs < n →
-    ∃ st' ps, dropAll.dropP n st k = .ok st' ∧ SInv st' ∧ heldP st' k = false ∧ st' = { st with pens := ps } ∧
+theorem dropP_ok (k : Nat) : ∀ (n : Nat) (st : St), SInv gh st → (st.pens[k]?.getD {}).appRefs < n →
+    ∃ st' ps, dropAll.dropP n st k = .ok st' ∧ SInv gh st' ∧ heldP st' k = false ∧ st' = { st with pens := ps } ∧
       ps.size = st.pens.size ∧ (∀ (j : Nat), j ≠ k → ps[j]? = st.pens[j]?) ∧ (heldP st k = false → ps = st.pens)
   | 0, _, _, h => absurd h (Nat.not_lt_zero _)
   | n + 1, st, inv, h => by
@@ -980,9 +1000,9 @@ theorem dropP_ok (k : Nat) : ∀ (n : Nat) (st : St), SInv st → (st.pens[k]?.g
       exact ⟨st, st.pens, rfl, inv, by simpa using hh, rfl, rfl, fun _ _ => rfl, fun _ => rfl⟩
 
 /-- `tickit_string_unref` by the application. -/
-theorem sunref_ok {st : St} (inv : SInv st) {k : Nat} (h : heldS st k = true) :
+theorem sunref_ok {st : St} (inv : SInv gh st) {k : Nat} (h : heldS st k = true) :
     ∃ st' s s', strUnref { st with strs := st.strs.setIfInBounds k { (st.strs[k]?.getD {}) with appRefs := (st.strs[k]?.getD {}).appRefs - 1 } } k = .ok st' ∧
-      SInv st' ∧ st.strs[k]? = some s ∧ st' = { st with strs := st.strs.setIfInBounds k s' } ∧ s'.appRefs + 1 = s.appRefs := by
+      SInv gh st' ∧ st.strs[k]? = some s ∧ st' = { st with strs := st.strs.setIfInBounds k s' } ∧ s'.appRefs + 1 = s.appRefs := by
   obtain ⟨s, hs, hfs, hpos, hlt⟩ := heldS_spec h
   have hrc := inv.simple.2 k s hs hfs
   unfold strUnref
@@ -1006,8 +1026,8 @@ theorem strs_size_lt {st : St} {k : Nat} {s : StrObj} (h : st.strs[k]? = some s)
   · have := Array.getElem?_eq_none (xs := st.strs) (Nat.le_of_not_lt hlt)
     rw [h] at this; cases this
 
-theorem dropS_ok (k : Nat) : ∀ (n : Nat) (st : St), SInv st → (st.strs[k]?.getD {}).appRefs < n →
-    ∃ st' ss, dropAll.dropS n st k = .ok st' ∧ SInv st' ∧ heldS st' k = false ∧ st' = { st with strs := ss } ∧
+theorem dropS_ok (k : Nat) : ∀ (n : Nat) (st : St), SInv gh st → (st.strs[k]?.getD {}).appRefs < n →
+    ∃ st' ss, dropAll.dropS n st k = .ok st' ∧ SInv gh st' ∧ heldS st' k = false ∧ st' = { st with strs := ss } ∧
       ss.size = st.strs.size ∧ (∀ (j : Nat), j ≠ k → ss[j]? = st.strs[j]?) ∧ (heldS st k = false → ss = st.strs)
   | 0, _, _, h => absurd h (Nat.not_lt_zero _)
   | n + 1, st, inv, h => by
@@ -1036,9 +1056,9 @@ theorem rbs_size_lt {st : St} {k : Nat} {b : RBObj} (h : st.rbs[k]? = some b) : 
     rw [h] at this; cases this
 
 /-- `tickit_renderbuffer_unref` by the application. -/
-theorem bunref_ok {st : St} (inv : SInv st) {k : Nat} (h : heldB st k = true) :
+theorem bunref_ok {st : St} (inv : SInv gh st) {k : Nat} (h : heldB st k = true) :
     ∃ st' b b', rbUnref { st with rbs := st.rbs.setIfInBounds k { (st.rbs[k]?.getD {}) with appRefs := (st.rbs[k]?.getD {}).appRefs - 1 } } k = .ok st' ∧
-      SInv st' ∧ st.rbs[k]? = some b ∧ st' = { st with rbs := st.rbs.setIfInBounds k b' } ∧ b'.appRefs + 1 = b.appRefs := by
+      SInv gh st' ∧ st.rbs[k]? = some b ∧ st' = { st with rbs := st.rbs.setIfInBounds k b' } ∧ b'.appRefs + 1 = b.appRefs := by
   obtain ⟨b, hb, hfb⟩ := heldB_spec h
   have hpos := heldB_pos h hb
   have hlt := rbs_size_lt hb
@@ -1061,8 +1081,8 @@ theorem bunref_ok {st : St} (inv : SInv st) {k : Nat} (h : heldB st k = true) :
     · simp only [hz, if_true]; show b.appRefs - 1 + 1 = b.appRefs; omega
     · simp only [hz, if_false]; show b.appRefs - 1 + 1 = b.appRefs; omega
 
-theorem dropB_ok (k : Nat) : ∀ (n : Nat) (st : St), SInv st → (st.rbs[k]?.getD {}).appRefs < n →
-    ∃ st' bs, dropAll.dropB n st k = .ok st' ∧ SInv st' ∧ heldB st' k = false ∧ st' = { st with rbs := bs } ∧
+theorem dropB_ok (k : Nat) : ∀ (n : Nat) (st : St), SInv gh st → (st.rbs[k]?.getD {}).appRefs < n →
+    ∃ st' bs, dropAll.dropB n st k = .ok st' ∧ SInv gh st' ∧ heldB st' k = false ∧ st' = { st with rbs := bs } ∧
       bs.size = st.rbs.size ∧ (∀ (j : Nat), j ≠ k → bs[j]? = st.rbs[j]?) ∧ (heldB st k = false → bs = st.rbs)
   | 0, _, _, h => absurd h (Nat.not_lt_zero _)
   | n + 1, st, inv, h => by
@@ -1084,8 +1104,8 @@ theorem dropB_ok (k : Nat) : ∀ (n : Nat) (st : St), SInv st → (st.rbs[k]?.ge
     · simp only [hh, Bool.false_eq_true, if_false, pure_ok]
       exact ⟨st, st.rbs, rfl, inv, by simpa using hh, rfl, rfl, fun _ _ => rfl, fun _ => rfl⟩
 
-theorem dropT_ok : ∀ (n : Nat) (st : St), SInv st → st.term.appRefs < n →
-    ∃ st' tm, dropAll.dropT n st = .ok st' ∧ SInv st' ∧ heldT st' = false ∧ st' = { st with term := tm }
+theorem dropT_ok : ∀ (n : Nat) (st : St), SInv gh st → st.term.appRefs < n →
+    ∃ st' tm, dropAll.dropT n st = .ok st' ∧ SInv gh st' ∧ heldT st' = false ∧ st' = { st with term := tm }
   | 0, _, _, h => absurd h (Nat.not_lt_zero _)
   | n + 1, st, inv, h => by
     unfold dropAll.dropT
@@ -1110,15 +1130,15 @@ theorem mem_range_reverse {n i : Nat} (h : i < n) : i ∈ (List.range n).reverse
   simp [h]
 
 /-- Dropping every reference the application holds never fails, and afterwards it holds nothing. -/
-theorem dropAll_ok {cfg : Cfg} (R : Repaired cfg) {st : St} (inv : SInv st) :
-    ∃ st', dropAll cfg st = .ok st' ∧ SInv st' ∧ NoneHeld st' := by
+theorem dropAll_ok {cfg : Cfg} (R : Repaired cfg) {st : St} (inv : SInv gh st) :
+    ∃ st', dropAll cfg st = .ok st' ∧ SInv gh st' ∧ NoneHeld st' := by
   unfold dropAll
   -- windows, from the highest handle down to the root
   obtain ⟨s1, h1, ⟨i1, z1⟩, d1, _⟩ := foldlM_phase (fun st i => dropAll.dropW cfg ((getX st i).appRefs + 1) st i)
-    (fun s => SInv s ∧ s.tree.wins.size = st.tree.wins.size) (fun i s => heldW s i = false)
+    (fun s => SInv gh s ∧ s.tree.wins.size = st.tree.wins.size) (fun i s => heldW s i = false)
     (fun s i hi => by
       obtain ⟨s', hs', inv', L, hd⟩ := dropW_ok R i _ s hi.1 (Nat.lt_succ_self _)
-      exact ⟨s', hs', ⟨inv', L.size.trans hi.2⟩, hd, fun b hb => not_heldW_later hi.1 L hb⟩)
+      exact ⟨s', hs', ⟨inv', L.size.trans hi.2⟩, hd, fun b hb => not_heldW_later L hb⟩)
     (List.range st.tree.wins.size).reverse st ⟨inv, rfl⟩
   simp only [h1, bind_ok]
   have W1 : ∀ (i : Nat), heldW s1 i = false := by
@@ -1129,7 +1149,7 @@ theorem dropAll_ok {cfg : Cfg} (R : Repaired cfg) {st : St} (inv : SInv st) :
       rw [Array.getElem?_eq_none (by rw [z1]; exact Nat.le_of_not_lt hi)]
   -- pens
   obtain ⟨s2, h2, ⟨i2, w2, z2⟩, d2, _⟩ := foldlM_phase (fun st k => dropAll.dropP ((st.pens[k]?.getD {}).appRefs + 1) st k)
-    (fun s => SInv s ∧ (∀ (i : Nat), heldW s i = false) ∧ s.pens.size = s1.pens.size) (fun k s => heldP s k = false)
+    (fun s => SInv gh s ∧ (∀ (i : Nat), heldW s i = false) ∧ s.pens.size = s1.pens.size) (fun k s => heldP s k = false)
     (fun s k hi => by
       obtain ⟨s', ps, hs', inv', hd, he, hsz, ho, hsame⟩ := dropP_ok k _ s hi.1 (Nat.lt_succ_self _)
       refine ⟨s', hs', ⟨inv', fun i => by rw [he]; exact hi.2.1 i, by rw [he]; exact hsz.trans hi.2.2⟩, hd, ?_⟩
@@ -1147,7 +1167,7 @@ theorem dropAll_ok {cfg : Cfg} (R : Repaired cfg) {st : St} (inv : SInv st) :
       rw [Array.getElem?_eq_none (by rw [z2]; exact Nat.le_of_not_lt hk)]
   -- strings
   obtain ⟨s3, h3, ⟨i3, w3, p3, z3⟩, d3, _⟩ := foldlM_phase (fun st k => dropAll.dropS ((st.strs[k]?.getD {}).appRefs + 1) st k)
-    (fun s => SInv s ∧ (∀ (i : Nat), heldW s i = false) ∧ (∀ (k : Nat), heldP s k = false) ∧ s.strs.size = s2.strs.size)
+    (fun s => SInv gh s ∧ (∀ (i : Nat), heldW s i = false) ∧ (∀ (k : Nat), heldP s k = false) ∧ s.strs.size = s2.strs.size)
     (fun k s => heldS s k = false)
     (fun s k hi => by
       obtain ⟨s', ps, hs', inv', hd, he, hsz, ho, hsame⟩ := dropS_ok k _ s hi.1 (Nat.lt_succ_self _)
@@ -1167,7 +1187,7 @@ theorem dropAll_ok {cfg : Cfg} (R : Repaired cfg) {st : St} (inv : SInv st) :
       rw [Array.getElem?_eq_none (by rw [z3]; exact Nat.le_of_not_lt hk)]
   -- render buffers
   obtain ⟨s4, h4, ⟨i4, w4, p4, q4, z4⟩, d4, _⟩ := foldlM_phase (fun st k => dropAll.dropB ((st.rbs[k]?.getD {}).appRefs + 1) st k)
-    (fun s => SInv s ∧ (∀ (i : Nat), heldW s i = false) ∧ (∀ (k : Nat), heldP s k = false) ∧ (∀ (k : Nat), heldS s k = false) ∧
+    (fun s => SInv gh s ∧ (∀ (i : Nat), heldW s i = false) ∧ (∀ (k : Nat), heldP s k = false) ∧ (∀ (k : Nat), heldS s k = false) ∧
       s.rbs.size = s3.rbs.size)
     (fun k s => heldB s k = false)
     (fun s k hi => by
@@ -1193,7 +1213,8 @@ theorem dropAll_ok {cfg : Cfg} (R : Repaired cfg) {st : St} (inv : SInv st) :
 
 /-- Once the application holds nothing, nothing is left: every window, pen, string, buffer and the terminal is freed
     and no request is queued. -/
-theorem nothing_left {st : St} (inv : SInv st) (H : NoneHeld st) : anythingLeft st = false := by
+theorem nothing_left {st : St} (inv : SInv gh st) (H : NoneHeld st) (hgt : gh.term = 0) (hgw : ∀ i, gh.win i = 0) :
+    anythingLeft st = false := by
   -- every window is freed
   have hw : ∀ (i : Nat) (w : Win), st.tree.wins[i]? = some w → w.freed = true := by
     intro i w hw
@@ -1206,7 +1227,7 @@ theorem nothing_left {st : St} (inv : SInv st) (H : NoneHeld st) : anythingLeft 
       have h3 := H.w i
       unfold heldW at h3
       simp only [hw, hf, Bool.not_false, Bool.true_and, decide_eq_false_iff_not, Nat.not_lt, Nat.le_zero_eq] at h3
-      rw [h3] at h2
+      rw [h3, hgw i] at h2
       omega
   -- so no window holds a pen
   have hh : ∀ (k : Nat), holders st k = 0 := by
@@ -1280,7 +1301,7 @@ theorem nothing_left {st : St} (inv : SInv st) (H : NoneHeld st) : anythingLeft 
       have h3 := H.t
       unfold heldT at h3
       simp only [hf, Bool.not_false, Bool.true_and, decide_eq_false_iff_not, Nat.not_lt, Nat.le_zero_eq] at h3
-      rw [h3] at h1
+      rw [h3, hgt] at h1
       omega
   · cases hc : st.tree.root.changes with
     | nil => rfl
